@@ -5,6 +5,7 @@
 -/
 import Jence.Lemmas.Top
 import Jence.Props.C01
+import Jence.Lemmas.LegalMoves
 namespace Jence.Props.C03
 open Jence
 
@@ -85,5 +86,14 @@ theorem bestmove_line (R : Rules) (cfg : Cfg) (g : Game) (depth : Int) (tt : TT)
     (replays `replays/prefix/D1_*`): squares a8, a8 and, because its promotion field is 0 = white pawn rather than 12 = none,
     a promotion letter. The null move is not a generated move of any position. -/
 theorem legacy_null_answer : Move.null.fromSq = 0 ∧ Move.null.toSq = 0 ∧ Move.null.promotion ≠ PNONE := by decide
+
+/-- **T3.1, against the rules.** For a consistent root position in which the side not to move is not in check, the move
+    `search` answers with denotes a move that is legal by the rules specification (`Spec.legalMoves`), for every depth,
+    table content, history, poll predicate and input schedule. -/
+theorem bestmove_rules_legal (cfg : Cfg) (g : Game) (b : Board) (depth : Int) (tt : TT) (rep : RepTable)
+    (wf : Wf g b) (nk : NoKingCapture g) (hne : legalValues g ≠ [])
+    (ho : (search chessRules cfg g depth tt rep).2.rep.overflow = false) :
+    smove (search chessRules cfg g depth tt rep).1.bestMove ∈ Spec.legalMoves (Spec.abs g) :=
+  (legal_refines wf nk _).2 ⟨_, bestmove_legal_chess cfg g depth tt rep wf.ok.epLe hne ho, rfl⟩
 
 end Jence.Props.C03
